@@ -65,7 +65,7 @@ def total_at(r, a, j, c, k):
     return c0 + r0_of(r, a, j) * k + a * k * (k + 1) // 2 + j * (k - 1) * k * (k + 1) // 6
 
 
-def in_domain(r, a, j, T, lo=-MM1):
+def in_domain(r, a, j, T, lo=-MM1, hi=MM1):
     """lo = -MM1: |.| <= 2^31-1 (C01, C17); lo = -M: the signed 32-bit range itself (C02)"""
     if T < 1:
         return False
@@ -73,7 +73,7 @@ def in_domain(r, a, j, T, lo=-MM1):
     if j:
         f = (-a) // j
         ks |= {k for k in (f - 1, f, f + 1, f + 2) if 1 <= k <= T}
-    return all(lo <= rate_at(r, a, j, k) <= MM1 for k in ks) and lo <= a + j * T <= MM1
+    return all(lo <= rate_at(r, a, j, k) <= hi for k in ks) and max(lo, -M) <= a + j * T <= MM1
 
 
 def cnt_at(r, a, c, k):
